@@ -53,8 +53,11 @@ def Case.tags (c : Case) : String :=
   (if c.cls == "approx" && c.n + Gen.zipfSkipSize + 1 ≥ lim then " [n + kSkipSize exceeds the integer type]" else "")
 
 def Case.flag (c : Case) (cat msg : String) : Case :=
+  -- the first violation of every category is kept, joined by ` || `
   match c.bad with
-  | some _ => c
+  | some b =>
+    if (b.splitOn " || ").any (fun m => (m.splitOn ":").headD "" == cat) then c
+    else { c with bad := some (b ++ " || " ++ cat ++ ": " ++ msg ++ c.tags) }
   | none => { c with bad := some (cat ++ ": " ++ msg ++ c.tags) }
 
 def Case.mis (c : Case) (msg : String) : Case :=
@@ -133,6 +136,8 @@ def processLine (c : Case) (line : String) : Case :=
     if ok == "1" then c
     else if name == "default_zero" then c.flag "inverse" "a default-constructed generator returned a non-zero value"
     else if name == "in_range" then c.flag "range" "a sample outside [min, max] in a random sequence"
+    else if name == "assigned_cdf" then c.flag "cdf" "GetCDF of a generator that was assigned (over a live, a moved-from or itself) differs from the table of its parameters, or throws"
+    else if name == "assigned_in_range" then c.flag "range" "a sample outside [min, max] from a generator that was assigned over a live one with another bin count"
     else c.flag "pure" s!"outputs differ: {name}"
   | ["ZTHROW", ok] =>
     let c := { c with nPure := c.nPure + 1 }
